@@ -610,6 +610,74 @@ func invariantIn(l *core.Loop, v ssa.Value, d int) bool {
 				if a, ok := core.AddrRoot(y.X).(*ssa.Alloc); ok {
 					return !writtenInLoop(l, a)
 				}
+				// a field of an object reached through a parameter/receiver: invariant when neither the loop body nor
+				// anything it calls stores to that field of that struct type
+				if fa, ok := y.X.(*ssa.FieldAddr); ok && loopProg != nil {
+					if _, isParam := core.AddrRoot(fa.X).(*ssa.Parameter); isParam || invariantIn(l, fa.X, d+1) {
+						return !storedUnder(loopProg, l, func(st *ssa.Store) bool {
+							f2, ok := st.Addr.(*ssa.FieldAddr)
+							return ok && f2.Field == fa.Field && types.Identical(core.Deref(f2.X.Type()), core.Deref(fa.X.Type()))
+						})
+					}
+				}
+				// an element of an invariant slice at an invariant index, when nothing under the loop stores elements of
+				// that type
+				if ia, ok := y.X.(*ssa.IndexAddr); ok && loopProg != nil && invariantIn(l, ia.X, d+1) && invariantIn(l, ia.Index, d+1) {
+					return !storedUnder(loopProg, l, func(st *ssa.Store) bool {
+						i2, ok := st.Addr.(*ssa.IndexAddr)
+						return ok && types.Identical(st.Val.Type(), y.Type()) && types.Identical(i2.X.Type(), ia.X.Type())
+					})
+				}
+			}
+		}
+	}
+	return false
+}
+
+// loopProg gives invariantIn access to the call graph (set by the checks that classify loops).
+var loopProg *core.Program
+
+// storedUnder: the loop body, or a repository function reachable from a call in it, contains a store matching the
+// predicate.
+func storedUnder(prog *core.Program, l *core.Loop, match func(*ssa.Store) bool) bool {
+	stores := func(fn *ssa.Function, only map[*ssa.BasicBlock]bool) bool {
+		for _, b := range fn.Blocks {
+			if only != nil && !only[b] {
+				continue
+			}
+			for _, ins := range b.Instrs {
+				if st, ok := ins.(*ssa.Store); ok && match(st) {
+					return true
+				}
+			}
+		}
+		return false
+	}
+	var fn *ssa.Function
+	for b := range l.Blocks {
+		fn = b.Parent()
+		break
+	}
+	if fn == nil || stores(fn, l.Blocks) {
+		return true
+	}
+	seen := map[*ssa.Function]bool{}
+	for _, cs := range prog.CG().Sites[fn] {
+		if !l.Blocks[cs.Instr.Block()] {
+			continue
+		}
+		for _, t := range cs.Targets {
+			if !prog.IsRepoFunc(t) {
+				continue
+			}
+			for _, r := range prog.CG().ReachableRepo(t) {
+				if seen[r] {
+					continue
+				}
+				seen[r] = true
+				if stores(r, nil) {
+					return true
+				}
 			}
 		}
 	}
@@ -849,6 +917,7 @@ func checkC02(rep *core.Report) {
 	r2 := rep.Rule("R02.2", "every allocation under the decoders is bounded by a constant, an option, or the size of an existing buffer", 3)
 	r3 := rep.Rule("R02.3", "no seek on the datagram goes backwards", 4)
 	r4 := rep.Rule("R02.4", "the JSON encoders loop only over the decoded message", 3)
+	loopProg = prog
 	pa := newProgAn(prog)
 	if pa.advance == nil || pa.readCount == nil {
 		r1.Undecided("anchors:reader", token.NoPos, "the reader's position writer / ReadCount were not identified")
